@@ -60,12 +60,13 @@ package geom
 //@   loop 1 invariant len(old(rings)) > 0 ==> ((HasZ(ctype) ==> (forall k :: 0 <= k && k < len(old(rings)) ==> HasZ(old(rings)[k].seq.ctype))) && (!HasZ(ctype) ==> (exists k :: 0 <= k && k < len(old(rings)) && !HasZ(old(rings)[k].seq.ctype))) && (HasM(ctype) ==> (forall k :: 0 <= k && k < len(old(rings)) ==> HasM(old(rings)[k].seq.ctype))) && (!HasM(ctype) ==> (exists k :: 0 <= k && k < len(old(rings)) && !HasM(old(rings)[k].seq.ctype))))
 
 //@ func forceCoordinatesTypeOfPointSlice
-//@   ensures len(result) == len(pts) && fresh(result) && (forall k :: 0 <= k && k < len(pts) ==> result[k].coords.Type == ctype && result[k].full == pts[k].full)
+//@   ensures len(result) == len(pts) && fresh(result) && (forall k :: 0 <= k && k < len(pts) ==> result[k].coords.Type == ctype && result[k].full == pts[k].full && (pts[k].full ==> same(result[k].coords.XY, pts[k].coords.XY) && (HasZ(ctype) && HasZ(pts[k].coords.Type) ==> same(result[k].coords.Z, pts[k].coords.Z)) && (HasM(ctype) && HasM(pts[k].coords.Type) ==> same(result[k].coords.M, pts[k].coords.M))))
 //@   loop 0 invariant -1 <= rangeindex && rangeindex < len(pts) && len(cp) == len(pts) && offset(cp) == 0 && fresh(cp)
-//@   loop 0 invariant forall k :: 0 <= k && k <= rangeindex ==> cp[k].coords.Type == ctype && cp[k].full == pts[k].full
+//@   loop 0 invariant forall k :: 0 <= k && k <= rangeindex ==> cp[k].coords.Type == ctype && cp[k].full == pts[k].full && (pts[k].full ==> same(cp[k].coords.XY, pts[k].coords.XY) && (HasZ(ctype) && HasZ(pts[k].coords.Type) ==> same(cp[k].coords.Z, pts[k].coords.Z)) && (HasM(ctype) && HasM(pts[k].coords.Type) ==> same(cp[k].coords.M, pts[k].coords.M)))
 
 //@ func NewMultiPoint
 //@   ensures len(result.points) == len(pts)
+//@   ensures forall k :: 0 <= k && k < len(pts) ==> result.points[k].full == pts[k].full && (pts[k].full ==> same(result.points[k].coords.XY, pts[k].coords.XY) && (HasZ(result.ctype) ==> same(result.points[k].coords.Z, pts[k].coords.Z)) && (HasM(result.ctype) ==> same(result.points[k].coords.M, pts[k].coords.M)))
 //@   ensures len(pts) > 0 ==> (HasZ(result.ctype) ==> (forall k :: 0 <= k && k < len(pts) ==> HasZ(pts[k].coords.Type))) && (!HasZ(result.ctype) ==> (exists k :: 0 <= k && k < len(pts) && !HasZ(pts[k].coords.Type))) && (HasM(result.ctype) ==> (forall k :: 0 <= k && k < len(pts) ==> HasM(pts[k].coords.Type))) && (!HasM(result.ctype) ==> (exists k :: 0 <= k && k < len(pts) && !HasM(pts[k].coords.Type)))
 //@   ensures len(pts) == 0 ==> result.ctype == 0
 //@   loop 0 invariant -1 <= rangeindex && ctype <= 3 && (HasZ(ctype) ==> (forall k :: 0 <= k && k <= rangeindex ==> HasZ(pts[k].coords.Type))) && (!HasZ(ctype) ==> (exists k :: 0 <= k && k <= rangeindex && !HasZ(pts[k].coords.Type))) && (HasM(ctype) ==> (forall k :: 0 <= k && k <= rangeindex ==> HasM(pts[k].coords.Type))) && (!HasM(ctype) ==> (exists k :: 0 <= k && k <= rangeindex && !HasM(pts[k].coords.Type)))
@@ -243,8 +244,6 @@ package geom
 //@ func MultiLineString.asLines
 //@   trusted
 //@ func LineString.IsSimple
-//@   trusted
-//@ func Point.AppendWKB
 //@   trusted
 //@ func LineString.AppendWKB
 //@   trusted
